@@ -54,6 +54,11 @@ CHECKS['C03'] = dict(engine='SYMTOK+LRZ3', category='model_checking', design='4/
    text='Every expression of up to 6 (quick) / 7 (thorough) tokens over the operator alphabet in the select list, and up to 4 / 5 tokens in WHERE, ON, HAVING, function-argument and CASE-branch position, for all three dialects: on every accepting path the tree built by the real parser (grouping and parentheses flags) equals the grouping of the reference reader implementing the property\'s precedence table. Table level: in every state where a binary/unary operator production is the only complete item, the live action for every operator lookahead is the reference decision (reduce on higher-or-equal level, shift otherwise) - this quantifies over all parser states, not inputs.',
    note='Trusted: z3, explorer, reference reader (refs/precedence.py). Sequences outside the reference grammar (NOT as operand of a tighter operator, binary NOT, calls, subqueries) and chained comparisons are counted and skipped. States with competing reductions (BETWEEN..AND) are covered by SYMTOK only.')
 
+CHECKS['C01'] = dict(engine='LEXZ3+CH', category='model_checking', design='4/C01',
+   technique='decomposition skeleton x atom lemma: z3 regular-expression queries over the live lexer rule lists (keyword collisions of bare identifiers derived to exhaustion; quoted identifiers/literals/integers start no earlier rule) + CrossHair on the real identifier/variable printers; concrete round trip of one sentence per grammar production and the test corpus',
+   text='Tokenisation side (solver, all three lexers): every identifier-shaped word up to 16/24 ASCII characters that an earlier lexer rule captures is derived by sat+blocking until unsat, and each one not in the printer\'s reserved set is replayed through the printer and parser; every bare-shaped word is an ID lexeme; no earlier rule can start at a back-quote, a quote or a digit run. Value side (solver): printed identifier parts, paths and variables decode to themselves for all values within the bound; inexpressible values are reported as KNOWN-FINDING while they fail. Skeletons (concrete, stated): every production\'s shortest sentence and every corpus statement is parsed, printed, re-parsed (tree and text equal), printed again and copied.',
+   note='Trusted: z3 regex theory, LEXZ3 translator (validated against re on every run), CrossHair str model (one mis-modelled strip() case was met; counterexamples are always replayed natively), reference readers. String-constant atoms are C07. The skeleton part is concrete execution over a bounded statement family, not a solver verdict. Non-ASCII letters are outside the LEXZ3 alphabet.')
+
 NA_PENDING = {}
 
 
